@@ -882,6 +882,8 @@ def correspond(ctx):
                 "against a numpy oracle (python-oracle route: Lean's Term lacks these ops), "
                 "1/24 ground tensors with -inf cells and rows, +inf and nan under t-t, (t+u)-t, (t-t)+u, -t-(-t), t+(-t), max/min "
                 "repeats and a reduction of t-t (nan == nan, inf == inf exactly; reference = eager build), "
+                "1/24 reductions (add, mul, logaddexp rounded, max) over Variable objects fully or partly ABSENT from the argument "
+                "(tensor over other inputs, 0-d tensor, Number, compound, lazy body with a free real variable), "
                 "1/12 user-defined terms made with funsor.factory.make_funsor (15 classes: every declaration order of Bound / "
                 "Funsor / Has / Fresh parameters, one and two binders, Fresh output names; bare, followed by .reduce(op) over ALL "
                 "inputs, by (t+z).reduce(op), or by substituting an index tensor that depends on a free variable named like the "
